@@ -138,6 +138,13 @@ def tier_a(impl, spec, scripts, aspects):
             if s is not None and s['tags'].get('C') and s['tags']['C'][0].split()[1] != '0':
                 break      # the script left the documented contract here: nothing after it is demanded
             if 'tmpaddr' in aspects:
+                for pl in b['tags'].get('P', []):
+                    m_ = dict(re.findall(r'(\w+)=(\d+)', pl))
+                    if int(m_.get('past_nonnull', 0)) or int(m_.get('last_null', 0)):
+                        fail = dict(aspect='tmpaddr', what="an archetype's checked lookup answered beyond its population (%s times) or not for its last member (%s times)" % (m_.get('past_nonnull'), m_.get('last_null')))
+                        break
+                if fail:
+                    break
                 for yl in b['tags'].get('Y', []):
                     m_ = re.findall(r'(oob|misaligned|overlap)=(\d+)', yl)
                     bad_ = [(k_, v_) for k_, v_ in m_ if int(v_)]
